@@ -170,6 +170,7 @@ class Sys:
         self.db = build_world()
         self.regs = ()  # registration ops applied so far (in order)
         self.queries = 0
+        self.qset = frozenset()  # queries executed so far (fallback state identity when the caches cannot be read)
         self.broken = False
 
 
@@ -191,7 +192,7 @@ def canon(s):
     if s.broken:
         return "BROKEN"
     c = cache_fp(s.db)
-    return (c14.fingerprint(s.db), c if c is not None else s.queries)
+    return (c14.fingerprint(s.db), c if c is not None else tuple(sorted(s.qset)))
 
 
 _FRESH = {}
@@ -214,13 +215,15 @@ def apply(s, op, part, hist):
         return False
     db = s.db
     pre = c14.fingerprint(db) if part is not None else None
-    warm_nonempty = part is not None and bool(cache_fp(db) and (cache_fp(db)[0] or cache_fp(db)[1]))
+    cf = cache_fp(db) if part is not None else None
+    warm_nonempty = part is not None and (bool(cf[0] or cf[1]) if cf is not None else s.queries > 0)
     out = run_op(db, op)
     regs_before = s.regs
     if op[0] == "R":
         s.regs = s.regs + (op[1],)
     else:
         s.queries += 1
+        s.qset = s.qset | {op[1]}
     if part is None:
         return True
     part.count("evaluations")
